@@ -286,7 +286,11 @@ class GPTNeoXKFACEigenLayer(KFACEigenLayer):
         # PyTorch NCCL does not support scatter but we can emulate it
         # with reduce_scatter where the reduction operation is sum and the
         # non_src ranks contribute zero filled tensors
+        # Note: the results are received in new buffers rather than in the
+        # module's gradients because the original gradients are still needed
+        # to compute the gradient scale (kl_clip) after preconditioning.
         if get_world_size(self.model_parallel_group) > 1:
+            grad_partition = torch.empty_like(grad_partition)
             torch.distributed.reduce_scatter(
                 grad_partition,
                 weight_grads,
@@ -298,6 +302,7 @@ class GPTNeoXKFACEigenLayer(KFACEigenLayer):
         if self.module.has_bias():
             if get_world_size(self.model_parallel_group) > 1:
                 if self.parallelism == 'output':
+                    bias_grad_partition = torch.empty_like(bias_grad_partition)
                     torch.distributed.reduce_scatter(
                         bias_grad_partition,
                         bias_grads,
@@ -305,6 +310,8 @@ class GPTNeoXKFACEigenLayer(KFACEigenLayer):
                     )
                     bias_grad = bias_grad_partition
                 else:
+                    if get_rank() != self.primary_rank:
+                        bias_grad = torch.empty_like(bias_grad_partition)
                     torch.distributed.broadcast(
                         bias_grad,
                         src=self.primary_rank,
